@@ -153,7 +153,7 @@ def fresh_text(item):
     name, y = item
     code = ("import sys, json\nsys.path[:0] = [%r, %r]\nfrom mc.props import c15\n"
             "y = json.loads(sys.stdin.read())\nprint(c15.compile_objs(c15.parse(y)), end='')\n" % (VERIF, REPO))
-    env = dict(os.environ, PYTHONHASHSEED="0", PYTHONDONTWRITEBYTECODE="1")
+    env = dict(os.environ, PYTHONHASHSEED=os.environ.get("PYTHONHASHSEED", "0"), PYTHONDONTWRITEBYTECODE="1")
     p = subprocess.run([sys.executable, "-c", code], input=json.dumps(y), capture_output=True, text=True, env=env)
     if p.returncode != 0:
         return name, None, p.stderr.strip().split("\n")[-1][:200]
